@@ -413,8 +413,30 @@ def md_for_spec_compare(md):
     return out
 
 
-def check_conformance(ctx, path, src, desc, sig='C04', custom=None):
+def check_conformance(ctx, path, src, desc, sig='C04', custom=None,
+                      table=None):
     dec = h5spec.decode(path)
+    if table is not None and not dec['problems']:
+        # what the table carries as group metadata is part of the table a
+        # specification-only reader recovers: entry names, data types and
+        # text, on the axis they belong to
+        for ax, key in (('observation', 'obs_gmd'), ('sample', 'samp_gmd')):
+            have = table.group_metadata(axis=ax) or {}
+            exp = {}
+            for k, v in have.items():
+                if isinstance(v, (tuple, list)) and len(v) == 2:
+                    exp[k] = {'data_type': v[0], 'value': v[1]}
+            got = {k: v for k, v in dec[key].items() if k in exp or exp}
+            if exp and got != exp:
+                raise Violation(sig + '/group-metadata', '%s group metadata '
+                                'in the file %r, the table carries %r; '
+                                'case=%r' % (ax, dec[key], exp, desc))
+            if not exp and not have and dec[key]:
+                raise Violation(sig + '/group-metadata', '%s group metadata '
+                                'in the file %r, the table carries none; '
+                                'case=%r' % (ax, dec[key], desc))
+            if exp:
+                ctx.count('group_metadata_decoded')
     if dec['problems']:
         raise Violation(sig + '/spec-violation', '%s; case=%r' %
                         ('; '.join(dec['problems'][:4]), desc))
@@ -460,7 +482,8 @@ def undo_custom(md_list, cat):
 
 RAGGED_VARIANTS = ['extra-on-later', 'missing-on-later', 'first-lacks',
                    'disjoint-keys', 'extra-on-last-only',
-                   'flat-taxonomy', 'flat-taxonomy-with-null']
+                   'flat-taxonomy', 'flat-taxonomy-with-null',
+                   'flat-taxonomy-user-formatter']
 
 
 def ragged_case(ctx, index, r, sig):
@@ -576,15 +599,39 @@ def _flat_taxonomy_case(ctx, index, r, sig, spec, axis, md, variant):
     t = gen.build(ctx.biom, spec, 'dense')
     ctx.count('ragged_metadata_cases')
     path = ctx.path('flat%d.biom' % index)
+    user = variant.endswith('user-formatter')
     try:
         try:
             with h5py.File(path, 'w') as f:
-                t.to_hdf5(f, 'vm', compress=r.random() < .5)
+                if user:
+                    # the documented way to keep such text as it is: name a
+                    # formatter for the category (and the parser on reading)
+                    from biom.table import general_formatter
+                    t.to_hdf5(f, 'vm', compress=r.random() < .5,
+                              format_fs={'taxonomy': general_formatter})
+                else:
+                    t.to_hdf5(f, 'vm', compress=r.random() < .5)
         except Exception:
             ctx.count('ragged_metadata_refused')
             ctx.case(desc, True)
             return
         ctx.count('flat_taxonomy_written')
+        if user:
+            from biom.table import general_parser
+            with h5py.File(path, 'r') as f:
+                t2 = ctx.biom.Table.from_hdf5(
+                    f, parse_fs={'taxonomy': general_parser})
+            got = [e.get('taxonomy') for e in
+                   snap.canon_md(t2.metadata(axis=axis), k)]
+            if got != vals:
+                raise Violation(sig + '/user-formatter-for-reserved-category',
+                                'written with format_fs={taxonomy: '
+                                'general_formatter}, read with the matching '
+                                'parser: %r, table had %r; case=%r' %
+                                (got, vals, desc))
+            ctx.count('reserved_category_user_formatter')
+            ctx.case(desc, True)
+            return
         dec = h5spec.decode(path)
         if dec['problems']:
             raise Violation(sig + '/spec-violation', '%s; case=%r' %
